@@ -210,30 +210,36 @@ Fixpoint no_check (steps : list step) : bool :=
 Fixpoint validate_first (steps : list step) : bool :=
   match steps with [] => true | Check _ :: r => validate_first r | Write _ :: r => no_check r end.
 
-(* outcomes of the individual checks of one fit call *)
-Record checks := { params_ok : bool; x_ok : bool; groups_ok : bool; cross_ok : bool; affinity_ok : bool }.
+(* outcomes of the individual checks of one fit call:
+   x_ok = check_array(X) passes (two-dimensional, numeric, finite, >= 1 sample, >= 1 feature);
+   samples_ok = the ensure_min_samples test of validate_data passes *)
+Record checks := { params_ok : bool; x_ok : bool; samples_ok : bool; groups_ok : bool; cross_ok : bool; affinity_ok : bool }.
 
 Definition writes (l : list string) : list step := map Write l.
-(* DiscriminativeModel.fit: _validate_params(); check_array(X); validate_data(...) [sets n_features_in_ when it passes];
-   _init_params (Douglas: mask length test first) ; optimiser_ ; gemini.compute_affinity(X, y) [raises for a missing /
-   ill-shaped precomputed matrix or an unusable metric] ; training ; labels_ ; n_iter_ *)
+(* DiscriminativeModel.fit: _validate_params(); check_array(X); validate_data(..., ensure_min_samples=n_clusters) [sets
+   n_features_in_ when it passes]; _init_params (Douglas: mask length test first) ; optimiser_ ; gemini.compute_affinity(X, y)
+   [raises for a missing precomputed matrix or an unusable metric] ; training ; labels_ ; n_iter_ *)
 Definition fit_base (weights : list string) (k : checks) : list step :=
-  [Check (params_ok k); Check (x_ok k); Write "n_features_in_"; Check (cross_ok k)] ++ writes weights ++
+  [Check (params_ok k); Check (x_ok k); Check (samples_ok k); Write "n_features_in_"; Check (cross_ok k)] ++ writes weights ++
   [Write "optimiser_"; Check (affinity_ok k); Write "labels_"; Write "n_iter_"].
 (* SparseLinearModel.fit / SparseMLPModel.fit: validate_data(self, X); self.groups_ = check_groups(...); super().fit *)
 Definition fit_sparse (weights : list string) (k : checks) : list step :=
   [Check (x_ok k); Write "n_features_in_"; Check (groups_ok k); Write "groups_"] ++ fit_base weights k.
-(* KernelRIM.fit: check_array(X); input_data_; training_kernel_ = _compute_kernel(X) [raises for an unusable kernel:
-   part of params here]; super().fit(kernel) ; n_features_in_ *)
+(* KernelRIM.fit: check_array(X); input_data_; training_kernel_ = _compute_kernel(X) [raises for an unusable kernel];
+   super().fit(kernel) ; n_features_in_ *)
 Definition fit_kernelrim (k : checks) : list step :=
   [Check (x_ok k); Write "input_data_"; Check (affinity_ok k); Write "training_kernel_"] ++ fit_base ["W_"; "b_"] k.
-(* Kauri.fit: _validate_params(); check_array; validate_data [n_features_in_]; cross rule; kernel; tree_ ...; labels_; leaves_ *)
+(* Kauri.fit: _validate_params(); check_array; validate_data(ensure_min_samples=min_samples_leaf) [n_features_in_];
+   cross rule; kernel; tree_ ...; labels_; leaves_ *)
 Definition fit_kauri (k : checks) : list step :=
-  [Check (params_ok k); Check (x_ok k); Write "n_features_in_"; Check (cross_ok k); Check (affinity_ok k);
+  [Check (params_ok k); Check (x_ok k); Check (samples_ok k); Write "n_features_in_"; Check (cross_ok k); Check (affinity_ok k);
    Write "tree_"; Write "labels_"; Write "leaves_"].
 (* the order the property asks for: all checks, then all writes *)
 Definition fit_validate_first (attrs : list string) (k : checks) : list step :=
-  [Check (params_ok k); Check (x_ok k); Check (groups_ok k); Check (cross_ok k); Check (affinity_ok k)] ++ writes attrs.
+  [Check (params_ok k); Check (x_ok k); Check (samples_ok k); Check (groups_ok k); Check (cross_ok k); Check (affinity_ok k)] ++ writes attrs.
+(* the sparse models read X.shape after validate_data: a list of lists (valid data) is rejected with an AttributeError *)
+Definition sparse_data_ok (has_shape : bool) (ndim n d : nat) (numeric finite : bool) (min_samples : nat) : bool :=
+  has_shape && data_ok ndim n d numeric finite min_samples.
 
 (* helpers for the OCaml driver (arbitrary-precision literals are built with the extracted arithmetic) *)
 Definition zadd := Z.add.
@@ -241,4 +247,4 @@ Definition zmul := Z.mul.
 Definition zopp := Z.opp.
 Definition zltb := Z.ltb.
 Definition mkq (n : Z) (d : positive) : Q := Qmake n d.
-(* EXTRACT: value ext constraint satisfied satisfied_any effective_sat lookup_param check_groups kauri_cross_ok douglas_mask_ok data_ok run validate_first fit_base fit_sparse fit_kernelrim fit_kauri fit_validate_first zadd zmul zopp zltb mkq subclass_of has_method *)
+(* EXTRACT: value ext constraint satisfied satisfied_any effective_sat lookup_param check_groups kauri_cross_ok douglas_mask_ok data_ok run validate_first fit_base fit_sparse fit_kernelrim fit_kauri fit_validate_first sparse_data_ok zadd zmul zopp zltb mkq subclass_of has_method *)
